@@ -529,6 +529,19 @@ def gen_iter(tier, rng, backends=BACKENDS_X86, with_count=True):
             h3 = bytes([0x78]) * g1 + bytes(ns[i % len(ns)] for i in range(run)) + bytes([0x78]) * g2
             ops3 = rng.choice(["NB" * 8, "N" * 6 + "B" * 6, "B" * 5 + "N" * 5 + "S", "NNBBNNBB" + "N" * 10])
             cases.append(f"iter be={be}{cpu} ns={hexs(bytes(ns))} a={rng.randrange(64)} h={hexs(h3)} ops={ops3}")
+        if j % 3 == 2:
+            # bit-trick neighbours of the needle next to real matches, ends closed to a short window from both sides
+            nb = ns[0]
+            alpha = [nb, nb ^ 1, nb ^ 0x80, (nb + 1) & 0xff, (nb - 1) & 0xff, 0x2d]
+            n4 = rng.choice([12, 20, 33, 60, 200])
+            h4 = bytearray(rng.choices(alpha, weights=[3, 3, 1, 1, 1, 6])[0] for _ in range(n4))
+            if n4 >= 40:
+                for q in range(20, n4 - 20):
+                    if q < n4 // 2 - 8 or q > n4 // 2 + 8:
+                        h4[q] = 0x2d
+            nm4 = sum(1 for x in h4 if x in ns)
+            ops4 = "".join(rng.choice(["NNBBB", "NBNBB", "BBNNB", "NNNBBBNB"]) for _ in range(max(1, min(8, nm4 // 4 + 1))))
+            cases.append(f"iter be={be}{cpu} ns={hexs(bytes(ns))} a={rng.randrange(64)} h={hexs(bytes(h4))} ops={ops4}")
         if be == "top" and j % 2 == 0:
             # memrchr_iter / memrchr2_iter / memrchr3_iter (Rev adaptor); count goes through the adaptor, so no C
             cases.append(f"iter be=top{cpu} rev=1 ns={hexs(bytes(ns))} a={rng.randrange(64)} h={hexs(bytes(h))} ops={ops.replace('C', 'S')}")
@@ -1005,6 +1018,7 @@ def substring_pairs(rng, quick, rev=False):
             pairs.append((x, hh))
         for r in range(1, n):
             pairs.append((x, (x[r:] + x[:r]) * 2))
+    pairs += long_lived_prefilter_pairs()
     sm = stale_memory_pairs(rng, quick)
     pairs += sm[::5] if quick else sm
     if not quick:
@@ -1018,6 +1032,24 @@ def substring_pairs(rng, quick, rev=False):
                 p = rng.randrange(0, L - n + 1); h[p:p + n] = x
             pairs.append((x, bytes(h)))
     return pairs
+
+def long_lived_prefilter_pairs():
+    """needles > 32 bytes whose rare bytes are NOT at offset 0, in haystacks of 60..70 well spaced occurrences (or
+    near-misses) that keep the adaptive prefilter effective for more than 50 calls, with stray rare bytes shortly
+    before later occurrences: anything that changes behaviour once the state has 'seen enough' shows here
+    (seeded changes C16-f, C16-h)"""
+    out = []
+    for x in (b"e" * 20 + b"Zq" + b"e" * 18, b"the quick brown fox jumps over the lazy dog ZQ", bytes(range(1, 36)) + b"\xf0\xf1"):
+        gap = b" " * 16
+        body = (gap + x) * 70
+        # stray rare bytes right after occurrences 55, 61 and 66
+        cut = [(len(gap) + len(x)) * k for k in (55, 61, 66)]
+        h1 = body[:cut[0]] + x[20:22] + body[cut[0]:cut[1]] + x[21:22] * 2 + body[cut[1]:cut[2]] + x[-2:] + body[cut[2]:]
+        out.append((x, h1))
+        near = bytearray(x); near[1] ^= 0x01
+        out.append((x, (gap + bytes(near)) * 60 + x[20:22] + gap + x + gap + x))
+        out.append((x, (gap + x) * 49 + gap + b"!" + x[1:] + gap + x))      # the 50th candidate is a false one
+    return out
 
 def stale_memory_pairs(rng, quick):
     """long needles x = (w^3)[:L] with period p = |w| < L (border s = L - p) and haystacks
@@ -1326,6 +1358,8 @@ def gen_c08(tier, rng):
     # empty needle
     for L in (0, 1, 2, 5, 16, 17, 63, 64, 65, 100):
         fam.append((b"", bytes(0x61 + i % 3 for i in range(L))))
+    # one iterator kept alive over 60..70 matches (long-lived prefilter state), stray rare bytes late
+    fam += long_lived_prefilter_pairs()
     # long needles (Two-Way + prefilter): early part drives the prefilter inert before later matches
     for x in (b"xy" + b"z" * 40, b"ab" * 20 + b"c", bytes(range(1, 41))):
         junk = (x[:2] + b"q") * 70
@@ -1398,6 +1432,10 @@ def gen_c16(tier, rng):
     cases = []
     needles = [b"", b"a", b"ab", b"aba", b"foo", bytes(range(1, 20)), b"xy" + b"z" * 40, b"ab" * 20 + b"c", bytes(range(1, 41)),
                b"\xff", b"\x00", b"\x80", b"\xff\xff", b"\x00\xff\x80", bytes([0xff]) * 33]
+    for (x, h) in long_lived_prefilter_pairs():
+        hshex = hexs(h) + "," + hexs(h[: len(h) // 2])
+        for ops in ("I0," + ",".join(["N"] * 74), "I0," + ",".join(["N"] * 52) + ",K," + ",".join(["N"] * 22), "F0,F1,F0,I0," + ",".join(["N"] * 60) + ",W," + ",".join(["N"] * 14)):
+            cases.append(f"hist cfg=auto rank=default x={hexs(x)} hs={hshex} ops={ops}")
     n_hist = 400 if quick else 6000
     k = 0
     for x in needles:
@@ -1791,6 +1829,8 @@ def gen_c13_escalate(rng):
         cases.append(f"mm f=find cfg=auto rank=default x={hexs(b'a' * m)} h={hexs((unit * (N // m + 1))[:N])}")
         cases.append(f"mm f=find cfg=auto rank=default x={hexs(b'a' * (m - 1) + b'b')} h={hexs(b'a' * N)}")
         cases.append(f"mm f=find cfg=none rank=default x={hexs(b'b' + b'a' * (m - 1))} h={hexs(b'a' * N)}")
+        cases.append(f"mm f=find cfg=none rank=default x={hexs(b'a' * (m - 1) + b'b')} h={hexs(b'a' * N)}")
+        cases.append(f"mm f=find cfg=none rank=default x={hexs(b'a' * m)} h={hexs((unit * (N // m + 1))[:N])}")
         cases.append(f"mm f=rfind x={hexs(b'b' + b'a' * (m - 1))} h={hexs(b'a' * N)}")
         cases.append(f"mm f=rfind x={hexs(b'a' * m)} h={hexs(((b'b' + b'a' * (m - 1)) * (N // m + 1))[:N])}")
         # haystacks shorter than twice the needle
